@@ -160,6 +160,11 @@ func (n UnixFSHAMTShard) loadChild(pbLink dagpb.PBLink) (UnixFSHAMTShard, error)
 	if err != nil {
 		return nil, err
 	}
+	// every shard of one HAMT has the same fanout: the hash is consumed in
+	// fixed-width steps and link names are stripped of a fixed-width prefix
+	if pf, cf := n.data.FieldFanout().Must().Int(), und.data.FieldFanout().Must().Int(); pf != cf {
+		return nil, fmt.Errorf("hamt child shard fanout (%d) does not match its parent's (%d)", cf, pf)
+	}
 	n.shardCache[pbLink.FieldHash().Link()] = und
 	return und, nil
 }
